@@ -506,7 +506,10 @@ def impl_number_labels(arg):
 # call = [entry point, cfg, db, citation mode]; the history carries one citation list that the caller re-uses
 # entry points: 0 pybtex.format_from_string  1 PybtexEngine().format_from_string  2 pybtex.format_from_file
 #               3 PybtexEngine().format_from_files([stream])  4 Style.format_bibliography(parsed database)
+#               5 pybtex.make_bibliography(.aux file)   (call = [entry point, cfg, db, citation mode, citations])
 # citation modes: 0 the default  1 a fresh ['*']  2 the caller's list object (re-used)  3 a tuple of it
+#                 4 a fresh explicit list given with the call
+# cfg[5] is the min_crossrefs the CALLER passes to the entry point; the model resolves with that value
 def bib_of(db):
     out = []
     for e in db:
@@ -535,6 +538,7 @@ def rec_backend():
         base = type(backend())
         class Rec(base):
             records = []
+            default_suffix = '.out'
             def write_prologue(self): pass
             def write_epilogue(self): pass
             def write_entry(self, key, label, text):
@@ -549,6 +553,8 @@ def history_cites(call, shared):
         return (None if ep == 4 else [norm('*')])
     if mode == 1:
         return [norm('*')]
+    if mode == 4:
+        return call[4]
     return shared
 
 def _entry_point_functions():
@@ -579,7 +585,7 @@ def _impl_history(arg):
     shared = list(shared_orig)
     outs = []
     for call in arg[1]:
-        ep, cfg, db, mode = call
+        ep, cfg, db, mode = call[:4]
         Rec = rec_backend()
         del Rec.records[:]
         text = bib_of(db)
@@ -587,6 +593,7 @@ def _impl_history(arg):
         if mode == 1: kw['citations'] = ['*']
         elif mode == 2: kw['citations'] = shared
         elif mode == 3: kw['citations'] = tuple(shared)
+        elif mode == 4: kw['citations'] = [S(c) for c in call[4]]
         def run():
             with Strict(bool(cfg[6])):
                 _speedup()
@@ -601,7 +608,20 @@ def _impl_history(arg):
                                 name_style=pick(cfg[3], NAMES), abbreviate_names=bool(cfg[4]), min_crossrefs=cfg[5],
                                 output_backend=Rec, bib_format='bibtex')
                     opts.update(kw)
-                    if ep == 0: pybtex.format_from_string(text, **opts)
+                    if ep == 5:
+                        d = tempfile.mkdtemp()
+                        try:
+                            with open(os.path.join(d, 'h.bib'), 'w', encoding='utf-8') as f:
+                                f.write(text)
+                            cs = kw.get('citations', ['*'])
+                            with open(os.path.join(d, 'h.aux'), 'w', encoding='utf-8') as f:
+                                f.write('\\relax\n' + ''.join('\\citation{%s}\n' % c for c in cs)
+                                        + '\\bibdata{%s}\n\\bibstyle{%s}\n' % (os.path.join(d, 'h'), FSTYLES[cfg[0]]))
+                            o2 = {k: v for k, v in opts.items() if k not in ('citations', 'bib_format', 'style')}
+                            pybtex.make_bibliography(os.path.join(d, 'h.aux'), **o2)
+                        finally:
+                            shutil.rmtree(d, ignore_errors=True)
+                    elif ep == 0: pybtex.format_from_string(text, **opts)
                     elif ep == 1: pybtex.PybtexEngine().format_from_string(text, **opts)
                     elif ep == 3: pybtex.PybtexEngine().format_from_files([io.StringIO(text)], **opts)
                     else:
@@ -674,7 +694,7 @@ def _model_arg(fn, arg):
     if fn == 10:
         out = []
         for call in arg[1]:
-            ep, cfg, db, mode = call
+            ep, cfg, db, mode = call[:4]
             c = history_cites(call, arg[0])
             out.append(_model_arg(1, [cfg, parsed_db(db), [] if c is None else [c]]))
         return out
@@ -1149,7 +1169,7 @@ def oracle_name(arg, out):
 def oracle_history(arg, out):
     """each call of a history is judged as that call alone; the caller's citation list stays as it was"""
     for k, (call, (r, unchanged)) in enumerate(zip(arg[1], out)):
-        ep, cfg, db, mode = call
+        ep, cfg, db, mode = call[:4]
         c = history_cites(call, arg[0])
         m = oracle_bib([cfg, parsed_db(db), [] if c is None else [c]], r)
         if m:
@@ -1559,8 +1579,8 @@ def _gen(tier, rng):
                    e[3] + [[r, [rand_person(rng)]] for r in ROLES if r not in [x[0].lower() for x in e[3]]]] for e in db]
         yield ('random_db', 1, [rand_cfg(rng), db, rand_cites(rng, db)])
     # ---- histories of calls in one process
-    def hist_entry(key):
-        e = rand_entry(rng, key)
+    def hist_entry(key, typ=None):
+        e = rand_entry(rng, key, typ)
         e[2] = [[k.lower(), v] for k, v in e[2] if k.lower() not in ('crossref',)]
         seen = set(); e[2] = [kv for kv in e[2] if not (kv[0] in seen or seen.add(kv[0]))]
         e[3] = [[r.lower(), [q for q in ps if spec_person_str(q) != 'others'] or [P(last=['Solo'])]] for r, ps in e[3]]
@@ -1583,13 +1603,37 @@ def _gen(tier, rng):
             if mode in (2, 3) and not all(c in pools[k] for c in shared):
                 db += [hist_entry(key) for key in shared if key not in pools[k]]
             cfg = rand_cfg(rng, strict=1); cfg[5] = 2
-            calls.append([rng.randrange(5), cfg, db, mode])
+            calls.append([rng.randrange(5), cfg, db, mode, []])
         yield ('history', 10, [shared, calls])
     for ep in range(5):
         d1 = [hist_entry('alpha1'), hist_entry('alpha2')]; d2 = [hist_entry('beta1')]
         c0 = [0, None, None, None, 0, 2, 1]
-        yield ('history', 10, [['alpha1'], [[ep, c0, d1, 0], [ep, c0, d2, 0]]])
-        yield ('history', 10, [['alpha1'], [[ep, c0, d1, 2], [ep, c0, d1, 2], [ep, c0, d1, 3]]])
+        yield ('history', 10, [['alpha1'], [[ep, c0, d1, 0, []], [ep, c0, d2, 0, []]]])
+        yield ('history', 10, [['alpha1'], [[ep, c0, d1, 2, []], [ep, c0, d1, 2, []], [ep, c0, d1, 3, []]]])
+    # min_crossrefs as the caller passes it to the entry point: parents referenced by 1, 2, 3 cited children
+    def xref_db(nchildren):
+        kids = ['kid%d' % j for j in range(nchildren)]
+        db = []
+        for k in kids:
+            e = hist_entry(k, rng.choice(['inbook', 'incollection', 'inproceedings']))
+            e[2].append(['crossref', 'Parent'])
+            db.append(e)
+        db.append(hist_entry('Parent', rng.choice(['book', 'proceedings'])))
+        if rng.random() < 0.5:
+            db.insert(0, hist_entry('loner'))
+        return kids, db
+    combos = [(ep, m, n, c) for ep in range(6) for m in (1, 2, 3) for n in (1, 2, 3) for c in range(1, n + 1)]
+    rng.shuffle(combos)
+    for (ep, m, n, c) in (combos[:36] if quick else combos + combos):
+        calls = []
+        for (m2, n2, c2) in ((m, n, c), (rng.choice([1, 2, 3]), rng.choice([1, 2, 3]), None)):
+            kids, db = xref_db(n2)
+            cited = rng.sample(kids, c2 if c2 else rng.randint(1, n2))
+            if rng.random() < 0.3 and 'loner' in [e[0] for e in db]:
+                cited.append('loner')
+            cfg = rand_cfg(rng, strict=1); cfg[5] = m2
+            calls.append([ep, cfg, db, 4, cited])
+        yield ('history_min_crossrefs', 10, [[], calls])
     # ---- malformed
     for i in range(300 if quick else 2500):
         db = rand_db(rng, rng.choice([1, 2, 3]))
@@ -1672,8 +1716,8 @@ def describe(fn, arg):
         return {'entry': ent(arg[0])}
     if fn == 10:
         return {'callers_citation_list': [S(c) for c in arg[0]],
-                'calls': [{'entry_point': ['pybtex.format_from_string', 'PybtexEngine().format_from_string', 'pybtex.format_from_file', 'PybtexEngine().format_from_files', 'Style.format_bibliography'][c[0]],
-                           'style': FSTYLES[c[1][0]], 'citations': ['default', "['*']", 'the caller\'s list (re-used)', 'a tuple'][c[3]], 'bib': bib_of(c[2])} for c in arg[1]]}
+                'calls': [{'entry_point': ['pybtex.format_from_string', 'PybtexEngine().format_from_string', 'pybtex.format_from_file', 'PybtexEngine().format_from_files', 'Style.format_bibliography', 'pybtex.make_bibliography'][c[0]], 'min_crossrefs': c[1][5],
+                           'style': FSTYLES[c[1][0]], 'citations': (['default', "['*']", 'the caller\'s list (re-used)', 'a tuple'][c[3]] if c[3] < 4 else [S(x) for x in c[4]]), 'bib': bib_of(c[2])} for c in arg[1]]}
     return {'arg': arg}
 
 def nontrivial(fn, arg, out):
